@@ -98,6 +98,28 @@ Definition suffix_ok (name : str) : bool :=
 Definition shadowed (f : fsys) (base : comps) (root : str) : bool :=
   p_exists f (base ++ [root ++ $".py"]) || p_is_dir f (base ++ [root]).
 
+(* ---- local_shadow(base) is not None (repair 7bd370f).
+   base.iterdir(): the names below the directory base resolves to (OSError - missing, not a directory, loop -
+   is "no shadow"); name = entry.name.split(".")[0]; known = sys.stdlib_module_names (generated table; the
+   name.isidentifier() test is implied: the tables plugin checks that every listed name passes it);
+   entry.name.endswith(_IMPORTABLE_ENDINGS) or ("." not in entry.name and entry.is_dir()) *)
+Definition dir_names (f : fsys) (d : comps) : list str :=
+  flat_map (fun e => match fst e with
+                     | [] => []
+                     | k => if comps_eqb (removelast k) d then [last k []] else []
+                     end) f.
+Definition safe_roots : list str := map root_of PY_SAFE_MODULES.
+Definition module_named (n : str) : bool :=
+  mem_str (root_of n) PY_STDLIB_MODULE_NAMES || mem_str (root_of n) safe_roots.
+Definition importable_entry (f : fsys) (d : comps) (n : str) : bool :=
+  module_named n &&
+  (existsb (fun e => suffixb e n) PY_IMPORTABLE_ENDINGS || (negb (mem_ch 46 n) && p_is_dir f (d ++ [n]))).
+Definition local_shadow (f : fsys) (base : comps) : bool :=
+  match walk true FUEL f [] base with
+  | Some q => is_dir_node (lstat f q) && existsb (importable_entry f q) (dir_names f q)
+  | None => false
+  end.
+
 (* analyze_python_file(path)[0]; path.parent is removelast *)
 Definition analyze_path (f : fsys) (p : comps) : bool :=
   match p_is_file f p with                                   (* exists() and is_file() *)
@@ -106,14 +128,19 @@ Definition analyze_path (f : fsys) (p : comps) : bool :=
       suffix_ok (last p []) && N.leb sz 100000 &&
       match a with
       | None => false                                          (* "syntax" violation *)
-      | Some t => match source_viols (shadowed f (removelast p)) true t with [] => true | _ => false end
+      | Some t =>
+          match source_viols (shadowed f (removelast p)) (local_shadow f (removelast p)) true t with
+          | [] => true
+          | _ => false
+          end
       end
   end.
 
 (* the three oracles of PyArgs.classify, computed *)
 Definition fs_resolve (f : fsys) (p : str) : option str := option_map render (realpath f p).
 Definition fs_analyze (f : fsys) (p : str) : bool := analyze_path f (path_comps p).
-Definition fs_shadow (f : fsys) (cwd : str) : bool := shadowed f (path_comps cwd) $"calendar".
+Definition fs_shadow (f : fsys) (cwd : str) : bool :=
+  shadowed f (path_comps cwd) $"calendar" || local_shadow f (path_comps cwd).
 
 Definition classify_fs (f : fsys) (ctx_cwd : option str) (proc_cwd : str) (tokens : list str) : pyres :=
   classify (fs_resolve f) (fs_analyze f) (fs_shadow f) ctx_cwd proc_cwd tokens.
